@@ -42,4 +42,15 @@ theorem idle_node_ready {s : Pool.State} {n j : Nat} (h : Pool.Reach s) (hl : (s
 theorem pending_is_noticed {s : Sig.State} (h : Sig.Reach s) (hd : Sig.Dispatchable s) :
     s.tok = true ∨ 0 < s.nOwes ∨ s.dph.active = true := Sig.no_lost_wakeup h hd
 
+/-- inside a standard queue nothing accepted disappears (model `FifoDisp` = the list-queue specification the segmented FIFO refines,
+    composed with the dispatcher): every accepted job has been handed to the dispatcher, is still pending, or was removed by a
+    Purge — which closes what it removes (C10) -/
+theorem accepted_is_somewhere {s : FifoDisp.State} (h : FifoDisp.Reach s) :
+    ∀ j ∈ s.accepted, j ∈ s.d.deqd ∨ j ∈ s.pending ∨ j ∈ s.dropped := FifoDisp.accepted_is_somewhere h
+
+/-- … nothing runs that was not accepted, and nothing starts twice -/
+theorem started_were_accepted_once {s : FifoDisp.State} (h : FifoDisp.Reach s) :
+    (∀ j ∈ s.d.entered, j ∈ s.accepted) ∧ s.d.entered.Nodup :=
+  ⟨FifoDisp.started_were_accepted h, Disp.entered_nodup (FifoDisp.disp_reach h)⟩
+
 end VarmqVerif.Props.C01
